@@ -1652,7 +1652,7 @@ pub const INTERPOSED: &[&str] = &[
     "open64", "open", "openat64", "openat", "close", "read", "write", "lseek64", "lseek", "ftruncate64", "ftruncate",
     "copy_file_range", "fsync", "fdatasync", "fchmod", "flock", "lockf", "fcntl", "fcntl64", "futimens", "utimensat",
     "statx", "chmod", "mkdir", "fchmodat", "unlink", "rmdir", "unlinkat", "rename", "renameat", "linkat", "link",
-    "symlink", "opendir", "readdir64", "closedir", "clock_gettime",
+    "symlink", "opendir", "readdir64", "closedir", "clock_gettime", "sendfile64", "splice", "writev",
 ];
 
 /// Registers a descriptor that was opened while the shim was bypassed, so that later calls on it
@@ -1664,5 +1664,69 @@ pub fn adopt_fd(fd: i32, path: &std::path::Path) {
             let flags = unsafe { real!("fcntl", unsafe extern "C" fn(c_int, c_int, c_long) -> c_int)(fd, libc::F_GETFL, 0) };
             w.inner.lock().unwrap().fds.insert(fd, FdInfo { path: path.to_string_lossy().into_owned(), ino, flags, is_dir, read_once: false });
         })
+    }
+}
+
+// ---- rarely used data-plane fallbacks of std::io::copy and vectored writes: traced like write
+
+#[no_mangle]
+pub unsafe extern "C" fn sendfile64(out_fd: c_int, in_fd: c_int, off: *mut off64_t, count: size_t) -> ssize_t {
+    let real = real!("sendfile64", unsafe extern "C" fn(c_int, c_int, *mut off64_t, size_t) -> ssize_t);
+    match prologue(|w| {
+        let mut d = fd_desc(w, out_fd, "write", Class::Data)?;
+        d.arg = count as i64;
+        Some(d)
+    }) {
+        Outcome::Pass => real(out_fd, in_fd, off, count),
+        Outcome::Fail(w, d, idx, e) => {
+            epilogue(&w, d, idx, -1, e, true, None);
+            -1
+        }
+        Outcome::Go(w, d, idx) => {
+            let r = real(out_fd, in_fd, off, count);
+            let e = errno();
+            epilogue(&w, d, idx, r as i64, e, false, None);
+            r
+        }
+    }
+}
+
+#[no_mangle]
+pub unsafe extern "C" fn splice(fd_in: c_int, off_in: *mut off64_t, fd_out: c_int, off_out: *mut off64_t, len: size_t, flags: c_uint) -> ssize_t {
+    let real = real!("splice", unsafe extern "C" fn(c_int, *mut off64_t, c_int, *mut off64_t, size_t, c_uint) -> ssize_t);
+    match prologue(|w| {
+        let mut d = fd_desc(w, fd_out, "write", Class::Data)?;
+        d.arg = len as i64;
+        Some(d)
+    }) {
+        Outcome::Pass => real(fd_in, off_in, fd_out, off_out, len, flags),
+        Outcome::Fail(w, d, idx, e) => {
+            epilogue(&w, d, idx, -1, e, true, None);
+            -1
+        }
+        Outcome::Go(w, d, idx) => {
+            let r = real(fd_in, off_in, fd_out, off_out, len, flags);
+            let e = errno();
+            epilogue(&w, d, idx, r as i64, e, false, None);
+            r
+        }
+    }
+}
+
+#[no_mangle]
+pub unsafe extern "C" fn writev(fd: c_int, iov: *const libc::iovec, n: c_int) -> ssize_t {
+    let real = real!("writev", unsafe extern "C" fn(c_int, *const libc::iovec, c_int) -> ssize_t);
+    match prologue(|w| fd_desc(w, fd, "write", Class::Data)) {
+        Outcome::Pass => real(fd, iov, n),
+        Outcome::Fail(w, d, idx, e) => {
+            epilogue(&w, d, idx, -1, e, true, None);
+            -1
+        }
+        Outcome::Go(w, d, idx) => {
+            let r = real(fd, iov, n);
+            let e = errno();
+            epilogue(&w, d, idx, r as i64, e, false, None);
+            r
+        }
     }
 }
